@@ -90,6 +90,7 @@ def implicit_concats(module, node):
 
 
 def check(ctx):
+    positional_parsing(ctx)
     # sub-parsers that read a variable number of tokens end at the next Reserved word (the next clause keyword); confirmed on the
     # reference tree, frozen here: one that stops looking at Reserved swallows the following clause in some orders only
     ctx.rule("T6-stoppers", "parseDirect/parseFields/parseIndirect/parseRelation/.. still end their look-ahead at Reserved words")
@@ -388,3 +389,41 @@ def reserved_peeks(ctx, B):
                     "the reserved word of the following clause is returned as the optional operand although it was not consumed: "
                     "`... of framer with a 1` names framer `with`, while the permuted clause order names `me`")
     ctx.floor("T1-peek:instances", inst, 20)
+
+
+def positional_parsing(ctx):
+    """the clause parsers work from the current position: (tokens, index) in, new index out.  Locating a clause by searching the
+    whole command for a word (tokens.index(word) without a start, `word in tokens`, tokens.count) finds the first occurrence
+    anywhere - the result then depends on which clauses came before"""
+    ctx.rule("T6-position", "no Builder method searches the whole token list for a word (tokens.index(x) without start, x in tokens, "
+             "tokens.count(x))")
+    B = ctx.cls("building", "Builder")
+    k = 0
+    # the matcher must still recognise what it is for (a rule whose expected count is zero would otherwise pass vacuously)
+    probe = ast.parse("i = tokens.index(w)\nif w in tokens: pass\nn = tokens.count(w)\nj = tokens.index(w, i)")
+    if sum(1 for x in ast.walk(probe) if _global_search(x)) != 3:
+        raise AnchorError("T6-position matcher no longer recognises its positive examples")
+    for mn, f in sorted(B.methods.items()):
+        if "tokens" not in {a.arg for a in f.args.args}:
+            continue
+        k += 1
+        for x in ast.walk(f):
+            bad = _global_search(x)
+            if bad:
+                ctx.bad("T6-position", x, "Builder.%s: %s" % (mn, bad),
+                        "the first occurrence of the word in the whole command is not the clause that follows the current position: "
+                        "with an earlier clause using the same connective the parser cuts the wrong slice, so one order of the same "
+                        "clauses builds and another raises or builds something else")
+    ctx.floor("T6-position:parsers", k, 60)
+
+
+def _global_search(x):
+    if isinstance(x, ast.Call) and isinstance(x.func, ast.Attribute) and dotted(x.func.value) == "tokens":
+        if x.func.attr == "index" and len(x.args) < 2:
+            return src(x)
+        if x.func.attr == "count":
+            return src(x)
+    elif isinstance(x, ast.Compare) and len(x.ops) == 1 and isinstance(x.ops[0], (ast.In, ast.NotIn)) and \
+            dotted(x.comparators[0]) == "tokens":
+        return src(x)
+    return None
